@@ -877,9 +877,10 @@ class MBXML:
                     bytes([part.token_id])
                     + attributes
                     + (
-                        (cls.write_uintvar(len(part.value)) + part.value)
-                        if len(part.value)
-                        else b""
+                        # only tokens of defined zero length have no length field
+                        b""
+                        if part.length == 0
+                        else (cls.write_uintvar(len(part.value)) + part.value)
                     )
                 )
         elif part.token_type == GlobalToken.UINTVAR:
